@@ -81,7 +81,7 @@ def jobs(tier, seed):
         for d in chains(random.Random(seed + 1), 60, 40, 60):
             add(d)
         # "a few hundred nodes": long chains and large seeded trees, and their symbolic derivatives
-        for d in chains(random.Random(seed + 2), 60, 100, 320):
+        for d in chains(random.Random(seed + 2), 36, 100, 320):
             add(d)
         big = fam.f5(seed + 12, 80, 30, 120)
         for d in big:
